@@ -71,10 +71,11 @@ def mk_init(it, prog, shape):
         return K(None)
     sd, sp, code, data, lib = shape
     kw = {}
+    # present-but-falsy values (split_depth 0, tick = tock = false) are valid `just` values and must not be written as `nothing`
     if sd:
-        kw['split_depth'] = K(17)
+        kw['split_depth'] = K(0 if (sp + code + data + lib) % 2 == 0 else 17)
     if sp:
-        kw['special'] = it.construct(prog.cls('TickTock'), [K(True), K(False)], {})
+        kw['special'] = it.construct(prog.cls('TickTock'), [K(bool(code)), K(False)], {})
     if code:
         kw['code'] = cm.new_cell(it, cm.tvm_bits(it, BA([Seg(8, 'k', '11001100')])), [])
     if data:
